@@ -647,6 +647,17 @@ impl Prop for C10Prop {
         let (bad, defect) = inject(&mut c, &case.prog, kind)?;
         Some(json!({"source": render_program(&bad, Some(Dialect::Cl23)), "defect": defect.kind, "site": defect.site}))
     }
+    fn known(&self, v: &Viol) -> Option<&'static str> {
+        // cl22: the frontend optimiser (the partial evaluator) runs over the program before the
+        // duplicate-definition check and may give up on it with its own "Don't yet support this
+        // call type": the program is rejected, but the message is not about the duplicate.
+        let dialect = v.case.get("dialect").and_then(|d| d.as_str()).unwrap_or("");
+        let defect = v.case.get("defect").and_then(|d| d.as_str()).unwrap_or("");
+        if dialect == "cl22" && defect == "duplicate-function" && v.sig.starts_with("error-does-not-name-identifier") && v.observed.contains("Don't yet support this call type") {
+            return Some("cl22-frontend-optimiser-gives-up-before-the-duplicate-check");
+        }
+        None
+    }
     fn timeout_exempt_phase(&self) -> Option<u32> {
         Some(1)
     }
